@@ -86,10 +86,8 @@ def fea_parts(rnd, bases, marks_top, marks_bot, need, variable, scripts):
     lang_rules = {}
     for sc in scripts:
         for lg in LANGS.get(sc, []):
-            if rnd.random() < 0.6:
+            if rnd.random() < 0.7:
                 lang_rules[(sc, lg)] = rnd.choice(["", "", " exclude_dflt"])
-    for (sc, lg) in lang_rules:
-        pass
     kern_body = " ".join(kern)
     for (sc, lg), how in sorted(lang_rules.items()):
         if rnd.random() < 0.5:
@@ -165,7 +163,9 @@ def program(rnd):
         return name
 
     variable = rnd.random() < 0.7
-    scripts = ["DFLT"] + rnd.sample(["latn", "cyrl", "grek"], rnd.randint(1, 2))
+    scripts = ["DFLT"] + (["latn"] if rnd.random() < 0.8 else []) + rnd.sample(["cyrl", "grek"], rnd.randint(0, 1))
+    if len(scripts) == 1:
+        scripts.append("cyrl")
     lines, tags = fea_parts(rnd, bases, marks_top, marks_bot, need, variable, [s for s in scripts if s != "DFLT"])
     head = ["languagesystem %s dflt;" % s for s in scripts]
     for s in scripts:
